@@ -477,6 +477,11 @@ unsafe fn h_waitpid(pid: c_int, status: *mut c_int, flags: c_int) -> Option<c_in
     if !RECORDING {
         return None;
     }
+    if let Some(e) = fault_check(K_WAITPID) {
+        rec(K_WAITPID, pid as i64, flags as i64, 0, -1, e, b"");
+        crate::raw::set_errno(e);
+        return Some(-1);
+    }
     BLOCKED_IN.store(pid as i64, Ordering::SeqCst);
     let r = crate::raw::wait4(pid, status, flags);
     let en = errno_of(r as i64);
